@@ -142,8 +142,11 @@ def write_coqproject() -> None:
         cp.write_text(txt)
 
 
-def build(targets: list[str] | None = None, timeout: int = 3000) -> str:
-    """Full .vo build (never -vos) of the Coq development + extraction + OCaml driver, under a lock."""
+def build(targets: list[str] | None = None, timeout: int = 3000, strict: bool = False) -> str:
+    """Full .vo build (never -vos) of the Coq development + extraction + OCaml driver, under a lock.
+    With strict=False `make -k` is used: a file that no longer compiles (e.g. the proofs over a regenerated
+    translation of another property) does not stop the files that do not depend on it; each check then
+    compiles its own property file, which fails iff something IT depends on is broken."""
     lock = _lock()
     try:
         write_coqproject()
@@ -153,11 +156,13 @@ def build(targets: list[str] | None = None, timeout: int = 3000) -> str:
                                capture_output=True, text=True)
             if p.returncode != 0:
                 raise BuildError("coq_makefile failed", p.stdout + p.stderr)
-        cmd = ["timeout", str(timeout), "make", "-j16"] + (targets or [])
+        cmd = ["timeout", str(timeout), "make", "-j16"] + ([] if strict else ["-k"]) + (targets or [])
         p = subprocess.run(cmd, cwd=COQ, capture_output=True, text=True)
         log = p.stdout + p.stderr
-        if p.returncode != 0:
+        if p.returncode != 0 and strict:
             raise BuildError("coq build failed", log)
+        if p.returncode != 0:
+            log += "\n[make -k reported failures; continuing with the files that did build]\n"
         # the driver is rebuilt when any model file is newer
         newest = max(q.stat().st_mtime for q in list((COQ / "theories").rglob("*.v")) + list((COQ / "extract.d").glob("*.list"))
                      if q.name != "Extract.v")
